@@ -40,10 +40,12 @@ def gen_sys(rng):
             if i and rng.random() < 0.15:
                 chain = rng.choice(['A', 'B', 'C'])
                 resid = rng.choice([0, 1, 3])
-            same_number = i and rng.random() < 0.12      # insertion-code residue sharing the number of its neighbour
+            same_number = i and rng.random() < 0.2       # insertion-code residue sharing the number of its neighbour
             if i and not same_number:
                 resid += rng.choice([1, 1, 1, 2])
             name = rng.choice(PROT if protein else NONPROT + PROT[:1])
+            if same_number and rng.random() < 0.7:
+                name = res[-1]['resname']               # 45 and 45A with the same name: a request for PHE45 means both
             atoms = []
             for _ in range(rng.randint(1, 3)):
                 atoms.append(key)
